@@ -36,7 +36,7 @@ fn kind(e: &Value) -> &str {
 fn subs(e: &Value) -> Vec<&Value> {
     match kind(e) {
         "seq" | "choice" => e["es"].as_array().map(|a| a.iter().collect()).unwrap_or_default(),
-        "plus" | "opt" | "many" | "tag" => vec![&e["e"]],
+        "plus" | "opt" | "many" | "tag" | "tagmap" => vec![&e["e"]],
         _ => vec![],
     }
 }
@@ -54,8 +54,29 @@ fn build(e: &Value) -> NFA<Tag> {
             NFA::from(s.as_str())
         }
         "empty" => NFA::empty(),
-        "seq" => NFA::sequence(subs(e).into_iter().map(build).collect::<Vec<_>>()),
-        "choice" => NFA::choice(subs(e).into_iter().map(build).collect::<Vec<_>>()),
+        // two operands: through the operators `+` and `|`
+        "seq" | "choice" => {
+            let mut ns: Vec<NFA<Tag>> = subs(e).into_iter().map(build).collect();
+            if ns.len() == 2 {
+                let b = ns.pop().unwrap();
+                let a = ns.pop().unwrap();
+                if kind(e) == "seq" {
+                    a + b
+                } else {
+                    a | b
+                }
+            } else if kind(e) == "seq" {
+                NFA::sequence(ns)
+            } else {
+                NFA::choice(ns)
+            }
+        }
+        "digit" => NFA::digit(),
+        "number" => NFA::number(),
+        "tagmap" => {
+            let k = e["t"].as_u64().unwrap_or(0) as u32;
+            build(&e["e"]).tags_map(move |t| t + k)
+        }
         "plus" => build(&e["e"]).some(),
         "opt" => build(&e["e"]).optional(),
         "many" => build(&e["e"]).many(),
@@ -65,7 +86,16 @@ fn build(e: &Value) -> NFA<Tag> {
 }
 
 fn coq_regex(e: &Value) -> String {
+    coq_regex_shift(e, 0)
+}
+
+/// the expression with `shift` added to every tag (what tags_map does to the automaton)
+fn coq_regex_shift(e: &Value, shift: u64) -> String {
+    let coq_regex = |e: &Value| coq_regex_shift(e, shift);
     match kind(e) {
+        "digit" => format!("(Pred {})", cbytes(b"0123456789")),
+        "number" => format!("(Plus (Pred {}))", cbytes(b"0123456789")),
+        "tagmap" => coq_regex_shift(&e["e"], shift + e["t"].as_u64().unwrap_or(0)),
         "pred" => format!("(Pred {})", cbytes(&vbytes(&e["set"]))),
         "lit" => format!("(Lit {})", cbytes(&vbytes(&e["bs"]))),
         "empty" => "Empty".into(),
@@ -74,7 +104,7 @@ fn coq_regex(e: &Value) -> String {
         "plus" => format!("(Plus {})", coq_regex(&e["e"])),
         "opt" => format!("(Opt {})", coq_regex(&e["e"])),
         "many" => format!("(Many {})", coq_regex(&e["e"])),
-        "tag" => format!("(Tag {} {})", e["t"].as_u64().unwrap_or(0), coq_regex(&e["e"])),
+        "tag" => format!("(Tag {} {})", e["t"].as_u64().unwrap_or(0) + shift, coq_regex(&e["e"])),
         _ => "Nothing".into(),
     }
 }
@@ -83,6 +113,7 @@ fn alphabet(e: &Value, out: &mut BTreeSet<u8>) {
     match kind(e) {
         "pred" => out.extend(vbytes(&e["set"])),
         "lit" => out.extend(vbytes(&e["bs"])),
+        "digit" | "number" => out.extend(b"0123456789".iter().copied()),
         _ => {
             for s in subs(e) {
                 alphabet(s, out)
@@ -98,8 +129,8 @@ fn depth(e: &Value) -> usize {
 /// first / last position of the expression can be a loop
 fn loop_edge(e: &Value, first: bool) -> bool {
     match kind(e) {
-        "plus" | "many" => true,
-        "opt" | "tag" => loop_edge(&e["e"], first),
+        "plus" | "many" | "number" => true,
+        "opt" | "tag" | "tagmap" => loop_edge(&e["e"], first),
         "choice" => subs(e).into_iter().any(|s| loop_edge(s, first)),
         "seq" => {
             let ss = subs(e);
@@ -407,13 +438,12 @@ struct Observed {
 fn observe(e: &Value, sigma: &[u8], len: usize, given: &[Vec<u8>], seed: u64) -> Option<Observed> {
     let nfa = build(e);
     let dot = format!("{:?}", nfa);
+    // an unparsable graph or ids that are not 0..size-1 in order is a disagreement with the
+    // model (agree = false), not a crash: the language may still be right
     let (stop, states) = match parse_dot(&dot) {
-        Some(x) => x,
-        None => (0, vec![]),
+        Some(x) if x.1.len() == nfa.size() => x,
+        _ => (0, vec![]),
     };
-    if states.len() != nfa.size() {
-        return None;
-    }
     let dfa = nfa.compile();
     let (cd, dfa_size) = coq_dfa(&dfa)?;
     let mut w = Walk { dfa: &dfa, sigma: sigma.to_vec(), consistent: true, nodes: 0, live: 0, accepted: vec![], rejected: 0 };
@@ -448,9 +478,11 @@ fn choose_sigma(e: &Value, seed: u64) -> Vec<u8> {
     let mut sigma: Vec<u8> = if all.len() <= 4 {
         all.clone()
     } else {
-        // literals first (they are the fixed points of a grammar), then a few predicate bytes
+        // the extreme bytes of the alphabet, then a few others
         let mut rng = Rng::new(seed ^ 0x5151);
         let mut pick = BTreeSet::new();
+        pick.insert(all[0]);
+        pick.insert(all[all.len() - 1]);
         while pick.len() < 4 {
             pick.insert(*rng.pick(&all));
         }
@@ -544,10 +576,23 @@ fn rand_set(rng: &mut Rng, al: &[u8]) -> Vec<u8> {
 
 fn rand_leaf(rng: &mut Rng, al: &[u8]) -> Value {
     match rng.below(12) {
-        0 => mk("empty"),
+        0 => {
+            if rng.chance(1, 3) {
+                mk(if rng.chance(1, 2) { "digit" } else { "number" })
+            } else {
+                mk("empty")
+            }
+        }
         1 => mk("nothing"),
         2 | 3 | 4 => pred(&rand_set(rng, al)),
-        5 => lit(&[]),
+        5 => {
+            if rng.chance(1, 2) {
+                lit(&[])
+            } else {
+                // a literal with multi-byte characters (From<&str> walks bytes, not chars)
+                lit(rng.pick(&["\u{e9}", "a\u{e9}", "\u{2192}", "\u{7f}\u{80}"]).as_bytes())
+            }
+        }
         6 | 7 => {
             let n = 2 + rng.below(2) as usize;
             let bs: Vec<u8> = (0..n).map(|_| *rng.pick(al)).collect();
@@ -657,6 +702,43 @@ pub fn generate(rng: &mut Rng, n: usize, tier: &str) -> Vec<Value> {
             }
         }
     }
+    // tags: overriding, tags on operands edited in place, nested tagged tables
+    for e in [
+        tag(1, tag(2, lit(b"ab"))),
+        tag(1, un("plus", tag(2, lit(b"a")))),
+        nary("choice", vec![tag(1, un("plus", lit(b"a"))), tag(2, un("opt", lit(b"a"))), tag(3, un("many", lit(b"ab")))]),
+        nary("choice", vec![tag(1, lit(b"abc")), tag(2, lit(b"abd")), tag(1, lit(b"ab")), nary("choice", vec![tag(4, lit(b"a")), tag(5, pred(b"ab"))])]),
+        nary("seq", vec![nary("choice", vec![tag(1, lit(b"a")), tag(2, lit(b"b"))]), lit(b"c")]),
+        nary("choice", vec![tag(7, nary("seq", vec![lit(b"a"), un("opt", nary("seq", vec![un("plus", lit(b"b")), lit(b"a")]))])), tag(8, un("many", pred(b"ab")))]),
+        pred(&(0..=255u8).collect::<Vec<u8>>()),
+        pred(&[0, 255]),
+        un("many", pred(&(0..=255u8).filter(|b| *b != 0x1b).collect::<Vec<u8>>())),
+    ] {
+        v.push(json!({ "e": e }));
+    }
+    // large automata (hundreds of NFA states, like the decoder's key table and parameter lists)
+    {
+        let keys: Vec<Value> = (0..48u32)
+            .map(|i| tag(i, lit(format!("\x1b[{};{}~", i * 7 % 40, i).as_bytes())))
+            .collect();
+        v.push(json!({"e": nary("choice", keys), "sigma": [27, 91, 49, 59, 126], "len": 3,
+                      "probes": [b"\x1b[7;1~".to_vec(), b"\x1b[14;2~".to_vec(), b"\x1b[14;2".to_vec(), b"\x1b[9;47~".to_vec()]}));
+        let opts: Vec<Value> = (0..40u32)
+            .map(|i| {
+                let c = [b'a' + (i % 3) as u8];
+                if i % 2 == 0 { un("opt", lit(&c)) } else { un("many", lit(&c)) }
+            })
+            .collect();
+        v.push(json!({"e": nary("seq", opts), "sigma": [97, 98, 99], "len": 3}));
+        let params = nary("seq", vec![
+            lit(b"\x1b["),
+            un("plus", nary("seq", vec![un("many", pred(b"0123456789:")), un("opt", lit(b";"))])),
+            un("many", nary("choice", (0..30u8).map(|i| lit(&[b'A' + i % 26, b'a' + i % 7])).collect())),
+            lit(b"m"),
+        ]);
+        v.push(json!({"e": params, "sigma": [27, 91, 48, 59, 109], "len": 4,
+                      "probes": [b"\x1b[0;38:5:1;mAaBbm".to_vec(), b"\x1b[m".to_vec(), b"\x1b[;;m".to_vec(), b"\x1b[1Aam".to_vec()]}));
+    }
     let fixed = v.len();
     let als: [&[u8]; 4] = [b"ab", b"abc", b"a", b"ab;0"];
     while v.len() < fixed + n {
@@ -680,7 +762,13 @@ pub fn generate(rng: &mut Rng, n: usize, tier: &str) -> Vec<Value> {
                         alts.push(tag(if rng.chance(1, 5) { 0 } else { i as u32 }, a));
                     }
                 }
-                nary("choice", alts)
+                let c = nary("choice", alts);
+                if rng.chance(1, 4) {
+                    // the decoder retags every matcher with tags_map
+                    json!({"k": "tagmap", "t": 1 + rng.below(3), "e": c})
+                } else {
+                    c
+                }
             }
             3 => rand_expr(rng, al, d, true), // tags anywhere
             4 | 5 => named_shape(rng, al, d, false),
